@@ -657,6 +657,15 @@ func TestVerifC23(t *testing.T) {
 			"entries": "one entry for p", "max_rules_total": f3.MaxTotal, "default_policies": c23CaseDefaults,
 			"request_principals": c23CaseReqPrincipals, "request_actions": c23ReqActions, "request_resources": c23ReqResources, "request_names": c23CaseReqNames})
 	}
+	if !capped {
+		// family F4: every resource kind (cluster next to topic and group) and the admin action
+		f4 := &c23Family{Name: "F4-resource-kinds", MaxTotal: 2}
+		results = append(results, c23RunKinds(f4))
+		items = append(items, c23Item{Fam: f4})
+		rep.SetInfo("F4", map[string]any{"rule_actions": c23KindRuleActions, "rule_resources": c23KindRuleResources, "rule_names": c23KindRuleNames, "rules": len(f4.Rules),
+			"entries": "one entry for p", "max_rules_total": f4.MaxTotal, "default_policies": c23KindDefaults,
+			"request_principals": c23KindReqPrincipals, "request_actions": c23KindReqActions, "request_resources": c23KindReqResources, "request_names": c23KindReqNames})
+	}
 	if capped {
 		rep.Cap("deadline reached before all (family, shape, default) items were enumerated")
 	}
